@@ -333,6 +333,36 @@ macro_rules! uint_inv_cells {
     }};
 }
 
+use crypto_bigint::impl_modulus;
+impl_modulus!(P256, crypto_bigint::U256, "ffffffff00000001000000000000000000000000ffffffffffffffffffffffff");
+type CF = crypto_bigint::modular::ConstMontyForm<P256, 4>;
+
+fn const_monty_cells(reg: &mut Vec<Cell>) {
+    let m = vec![0xffffffffffffffffu64, 0x00000000ffffffff, 0, 0xffffffff00000001];
+    let g = Gen::BelowPublic(m);
+    let pubs = "modulus=P-256 (compile-time)";
+    cell!(reg, 0, "ConstMontyForm::new", 4, pubs, g.clone(), |s: &Slots| { bb(CF::new(&u::<4>(&s.a[0]))); });
+    cell!(reg, 0, "ConstMontyForm::retrieve", 4, pubs, g.clone(), |s: &Slots| { bb(CF::from_montgomery(u::<4>(&s.a[0])).retrieve()); });
+    cell!(reg, 0, "ConstMontyForm::add", 4, pubs, g.clone(), |s: &Slots| { bb(CF::from_montgomery(u::<4>(&s.a[0])).add(&CF::from_montgomery(u::<4>(&s.a[1])))); });
+    cell!(reg, 0, "ConstMontyForm::sub", 4, pubs, g.clone(), |s: &Slots| { bb(CF::from_montgomery(u::<4>(&s.a[0])).sub(&CF::from_montgomery(u::<4>(&s.a[1])))); });
+    cell!(reg, 0, "ConstMontyForm::neg", 4, pubs, g.clone(), |s: &Slots| { bb(CF::from_montgomery(u::<4>(&s.a[0])).neg()); });
+    cell!(reg, 0, "ConstMontyForm::double", 4, pubs, g.clone(), |s: &Slots| { bb(CF::from_montgomery(u::<4>(&s.a[0])).double()); });
+    cell!(reg, 0, "ConstMontyForm::mul", 4, pubs, g.clone(), |s: &Slots| { bb(CF::from_montgomery(u::<4>(&s.a[0])).mul(&CF::from_montgomery(u::<4>(&s.a[1])))); });
+    cell!(reg, 0, "ConstMontyForm::square", 4, pubs, g.clone(), |s: &Slots| { bb(CF::from_montgomery(u::<4>(&s.a[0])).square()); });
+    cell!(reg, 0, "ConstMontyForm::div_by_2", 4, pubs, g.clone(), |s: &Slots| { bb(CF::from_montgomery(u::<4>(&s.a[0])).div_by_2()); });
+    cell!(reg, 0, "ConstMontyForm::inv", 4, pubs, g.clone(), |s: &Slots| { bb(CF::from_montgomery(u::<4>(&s.a[0])).inv()); });
+    cell!(reg, 0, "ConstMontyForm::ct_eq_select", 4, pubs, g.clone(), |s: &Slots| {
+        let (x, y) = (CF::from_montgomery(u::<4>(&s.a[0])), CF::from_montgomery(u::<4>(&s.a[1])));
+        let c = x.ct_eq(&y);
+        bb((c, CF::conditional_select(&x, &y, c)));
+    });
+    for eb in [1u32, 5, 64, 65] {
+        cell!(reg, 0, "ConstMontyForm::pow_bounded_exp", 4, format!("{},exponent_bits={}", pubs, eb), g.clone(), move |s: &Slots| {
+            bb(CF::from_montgomery(u::<4>(&s.a[0])).pow_bounded_exp(&u::<4>(&s.a[2]), eb));
+        });
+    }
+}
+
 fn limb_cells(reg: &mut Vec<Cell>) {
     cell!(reg, 0, "Limb::adc", 1, "", Gen::Limbs3, |s: &Slots| { bb(Limb(s.s[0]).adc(Limb(s.s[1]), Limb(s.s[2] & 1))); });
     cell!(reg, 0, "Limb::sbb", 1, "", Gen::Limbs3, |s: &Slots| { bb(Limb(s.s[0]).sbb(Limb(s.s[1]), Limb(s.s[2] & 1))); });
@@ -480,6 +510,7 @@ fn boxed_cells(reg: &mut Vec<Cell>, w: usize, t: u8) {
 pub fn registry() -> Vec<Cell> {
     let mut reg: Vec<Cell> = Vec::new();
     limb_cells(&mut reg);
+    const_monty_cells(&mut reg);
     uint_cells!(reg, 1, 1);
     uint_cells!(reg, 2, 0);
     uint_cells!(reg, 4, 0);
